@@ -105,9 +105,11 @@ def model(prog, fn, mode, binding=None, prefix=(), depth=0, in_loop=False, impl_
         if m:
             val = bind(s.at(b).operand(site["args"][1])) if mode == "w" else None
             tag = None
+            extra = None
             if mode == "r":
                 tag = "%s@%s#%s" % (cal.rsplit("::", 1)[-1], fn.id.rsplit("::", 1)[-1], b)
-            sites.append(Site(token_kind(m), val, get_guards(), loop, fn.id, site["span"], tag, b))
+                extra = _landing_name(fn, site)
+            sites.append(Site(token_kind(m), val, get_guards(), loop, fn.id, site["span"], tag, b, extra))
             continue
         if mode == "w" and cal.endswith("SketchBytes::write"):
             val = bind(s.at(b).operand(site["args"][1]))
@@ -218,6 +220,8 @@ def concrete_tokens(sites, env, loop_counts=None):
         p = present(st, env, ignore=lambda c: "next(" in show(c) or "discr(next" in show(c))
         if p is False:
             continue
+        if st.loop and _loop_is_empty(st, env):
+            continue
         val = None
         if st.value is not None:
             try:
@@ -228,3 +232,143 @@ def concrete_tokens(sites, env, loop_counts=None):
                 val = None
         out.append((("?" if p is None else "") + st.kind + ("*" if st.loop else ""), val, st))
     return out
+
+
+ALIGN = []   # alignment (token index, reader site) of the last reader_accepts() run
+
+ASSUMED = ("discr(read_", "compute_seed_hash", "next(", "discr(map_err", "position(", "get_ref(", "remaining(", "is_nan(", "is_infinite(", "discr(check_", "discr(try_from_bytes", "discr(entries_for_config")
+
+
+def reader_accepts(sites, tokens, base_env):
+    """simulate the reader model on an expected token list [(kind, value|None)].
+    returns (verdict, detail): verdict True (all tokens consumed in order with matching kinds), False (definite
+    mismatch), None (undecided: a site's presence depends on something unknown)."""
+    env = dict(base_env)
+    i = 0
+    n = len(tokens)
+    del ALIGN[:]
+
+    def km(rk, tk):
+        rk, tk = rk.rstrip("*"), tk.rstrip("*")
+        if rk == tk:
+            return True
+        if tk in ("u16", "u32") and rk in (tk + "le", tk + "be"):
+            return True
+        if tk == "bytes" and rk == "bytes":
+            return True
+        return False
+    for st in sites:
+        p = present(st, env, ignore=lambda c: any(a in show(c) for a in ASSUMED))
+        if p is False:
+            continue
+        if st.kind == "skip":
+            if p is True:
+                return (False, "the reader skips over %s bytes of input at %s without decoding them" % (show(st.value)[:40], st.fn))
+            continue
+        if st.loop:
+            # a loop consumes the repeated group of the same kind, if it is next
+            if i < n and tokens[i][0].endswith("*") and km(st.kind, tokens[i][0]):
+                i += 1
+            continue
+        if p is None:
+            unk = set()
+            for path in st.guards:
+                for c, tv in path:
+                    if guard_holds(c, tv, env) is None and not any(a in show(c) for a in ASSUMED):
+                        unk.add(show(c)[:110])
+            return (None, "presence of %s in %s depends on unknown condition(s) %s" % (st.tag, st.fn, sorted(unk)[:3]))
+        if i >= n:
+            return (False, "the reader expects a further %s (%s) after the image ends (%d tokens)" % (st.kind, st.tag, n))
+        tk, tv = tokens[i]
+        if tk.endswith("*"):
+            return (False, "the reader reads a single %s (%s) where the layout has a repeated %s group (position %d)" % (st.kind, st.tag, tk, i))
+        same_width = WIDTH.get(re.sub(r"(le|be)$", "", st.kind.rstrip("*")), -1) == WIDTH.get(re.sub(r"(le|be)$", "", tk.rstrip("*")), -2)
+        if not km(st.kind, tk) and same_width and tv == 0:
+            pass  # an all-zero field has no byte order
+        elif not km(st.kind, tk):
+            return (False, "position %d: the reader reads %s (%s) where the layout has %s" % (i, st.kind, st.tag, tk))
+        if tv is not None and not isinstance(tv, str):
+            env[st.tag.split("@")[0] + "@" + st.tag.split("@", 1)[1] + "()"] = tv
+        ALIGN.append((i, st))
+        i += 1
+    if i < n:
+        return (False, "the reader stops after %d of %d tokens: %s is never read" % (i, n, [t[0] for t in tokens[i:]]))
+    return (True, "")
+
+
+def _loop_is_empty(site, env):
+    """the collection a loop site iterates over has length 0 under env (so the loop emits nothing)"""
+    for path in site.guards:
+        for cond, tv in path:
+            if cond[0] == "discr":
+                x = cond[1]
+                hops = 0
+                while isinstance(x, tuple) and x and x[0] == "call" and x[2] and hops < 8:
+                    nm = x[1].rsplit("::", 1)[-1]
+                    if nm in ("next", "iter", "iter_mut", "into_iter", "deref", "enumerate", "copied", "cloned", "by_ref"):
+                        x = x[2][0]
+                        hops += 1
+                    else:
+                        break
+                try:
+                    if formula.seq_len(x, env) == 0:
+                        return True
+                except formula.Uneval:
+                    pass
+    return False
+
+
+def _landing_name(fn, site):
+    """user variable the value of a read lands in (followed through `?`, map_err and copies), or None"""
+    cur = ir.pl_local(site["dest"])
+    for _ in range(10):
+        n = fn.local_name(cur)
+        if n and n not in ("val", "residual", "e", "err"):
+            return n
+        nxt = None
+        for blk in fn.blocks:
+            if blk.cleanup:
+                continue
+            for st in blk.stmts:
+                if st[0] == "=" and isinstance(st[1], int):
+                    for o in ir.rvalue_operands(st[2]):
+                        pp = ir.op_place(o)
+                        if pp is not None and ir.pl_local(pp) == cur:
+                            nxt = st[1]
+                            break
+                if nxt is not None:
+                    break
+            if nxt is None and blk.term[0] == "call":
+                c = blk.term[1]
+                for o in c["args"]:
+                    pp = ir.op_place(o)
+                    if pp is not None and ir.pl_local(pp) == cur and isinstance(c["dest"], int):
+                        nxt = c["dest"]
+                        break
+            if nxt is not None:
+                break
+        if nxt is None:
+            return None
+        cur = nxt
+    return None
+
+
+def value_label(e):
+    """last field / accessor name of a written value (`self.mode.estimator.kxq0` -> kxq0), or None"""
+    if e is None:
+        return None
+    x = e
+    for _ in range(6):
+        if x[0] == "field":
+            return x[2]
+        if x[0] == "cast":
+            x = x[1]
+            continue
+        if x[0] == "call" and x[2] and x[1].rsplit("::", 1)[-1] in ("get", "len", "as_u8"):
+            x = x[2][0]
+            continue
+        if x[0] == "len":
+            x = x[1]
+            continue
+        break
+    return None
